@@ -14,7 +14,7 @@
 
 use async_lock::__verif::{record_atomics, set_preempt_hook, set_starvation_oracle, take_atomic_log};
 use async_lock::{
-    Mutex, MutexGuard, MutexGuardArc, OnceCell, RwLock, RwLockReadGuard, RwLockReadGuardArc,
+    Barrier, Mutex, MutexGuard, MutexGuardArc, OnceCell, RwLock, RwLockReadGuard, RwLockReadGuardArc,
     RwLockUpgradableReadGuard, RwLockUpgradableReadGuardArc, RwLockWriteGuard, RwLockWriteGuardArc,
     Semaphore, SemaphoreGuard, SemaphoreGuardArc,
 };
@@ -128,6 +128,10 @@ trait Prim: 'static {
     /// have completed?
     fn must_finish(&self) -> bool {
         true
+    }
+    /// after the drain: is somebody asleep who should not be?
+    fn lost(&self) -> bool {
+        self.pending() > 0 && self.must_finish()
     }
     /// tags of the no-lost-wake-up property of this primitive
     fn wake_tags() -> &'static str;
@@ -278,7 +282,7 @@ fn scenario<P: Prim>(param: &str, prefix: &[(usize, String)], outer: (usize, &st
     }
     if run.viol.borrow().is_none() {
         let n = run.p.pending();
-        if n > 0 && run.p.must_finish() {
+        if run.p.lost() {
             flag(Some(format!("{} lost wake-up: nothing is held, nobody is woken, {} future(s) still pending", P::wake_tags(), n)));
         } else if n == 0 {
             flag(run.p.idle_probe());
@@ -1091,6 +1095,129 @@ impl Prim for OnceP {
     }
 }
 
+// ------------------------------------------------------------------ Barrier
+
+enum BSlot {
+    Idle,
+    Busy,
+    Fut(BoxFut<bool>),
+}
+
+struct BarrierP {
+    slots: Vec<RefCell<BSlot>>,
+    wk: Wakers,
+    n: usize,
+    leaders: Cell<usize>,
+    followers: Cell<usize>,
+    b: &'static Barrier,
+    _own: Owner<Barrier>,
+}
+
+impl Prim for BarrierP {
+    fn name() -> &'static str {
+        "barrier"
+    }
+    fn agents() -> usize {
+        4
+    }
+    fn params() -> Vec<String> {
+        vec!["2,fire=0".into(), "3,fire=0".into(), "2,fire=1".into(), "1,fire=0".into(), "0,fire=0".into()]
+    }
+    fn header_param(param: &str) -> String {
+        param.split(',').next().unwrap().to_string()
+    }
+    fn new(param: &str) -> Self {
+        let n: usize = param.split(',').next().unwrap().parse().unwrap();
+        let fire = param.contains("fire=1");
+        set_starvation_oracle(Some(Box::new(move || fire)));
+        let (own, b) = Owner::new(Barrier::new(n));
+        BarrierP {
+            slots: (0..Self::agents()).map(|_| RefCell::new(BSlot::Idle)).collect(),
+            wk: Wakers::new(Self::agents()),
+            n,
+            leaders: Cell::new(0),
+            followers: Cell::new(0),
+            b,
+            _own: own,
+        }
+    }
+    fn calls(&self, a: usize) -> Vec<&'static str> {
+        match &*self.slots[a].borrow() {
+            BSlot::Idle => vec!["wait"],
+            BSlot::Busy => vec![],
+            BSlot::Fut(_) => vec!["poll", "cancel"],
+        }
+    }
+    fn exec(&self, a: usize, call: &str) -> &'static str {
+        let slot = self.slots[a].replace(BSlot::Busy);
+        let b = self.b;
+        let fin = |s: &Self, mut f: BoxFut<bool>| match s.wk.poll(a, &mut f) {
+            Poll::Ready(true) => {
+                s.leaders.set(s.leaders.get() + 1);
+                (BSlot::Idle, "leader")
+            }
+            Poll::Ready(false) => {
+                s.followers.set(s.followers.get() + 1);
+                (BSlot::Idle, "follower")
+            }
+            Poll::Pending => (BSlot::Fut(f), "pending"),
+        };
+        let (next, res) = match (slot, call) {
+            (BSlot::Idle, "wait") => fin(self, mapped(b.wait(), |r| r.is_leader())),
+            (BSlot::Fut(f), "poll") => fin(self, f),
+            (BSlot::Fut(f), "cancel") => {
+                self.wk.forget(a);
+                drop(f);
+                (BSlot::Idle, "ok")
+            }
+            _ => panic!("invalid call {}", call),
+        };
+        *self.slots[a].borrow_mut() = next;
+        res
+    }
+    fn addrs(&self) -> Vec<usize> {
+        self.b.__verif_snapshot().addrs
+    }
+    fn monitor(&self, nested: bool) -> Option<String> {
+        if nested {
+            // the counters are read unlocked: only between calls
+            return None;
+        }
+        let snap = self.b.__verif_snapshot();
+        let gen = snap.words[2];
+        if self.leaders.get() != gen {
+            return Some(format!("[C09] {} generations completed but {} leaders reported", gen, self.leaders.get()));
+        }
+        if self.followers.get() > gen * self.n.saturating_sub(1) {
+            return Some(format!("[C09] {} followers released by {} completed generations of {}", self.followers.get(), gen, self.n));
+        }
+        if self.n >= 1 && snap.words[1] >= self.n {
+            return Some(format!("[C09] {} arrivals in the current generation of a barrier of {}", snap.words[1], self.n));
+        }
+        if snap.words[0] != 0 {
+            return Some(format!("[C09] the state mutex is left at {} between calls", snap.words[0]));
+        }
+        None
+    }
+    fn woken(&self) -> Vec<(usize, &'static str)> {
+        (0..Self::agents()).filter(|&a| matches!(&*self.slots[a].borrow(), BSlot::Fut(_)) && self.wk.is_woken(a)).map(|a| (a, "poll")).collect()
+    }
+    fn releasable(&self) -> Vec<(usize, &'static str)> {
+        Vec::new()
+    }
+    fn pending(&self) -> usize {
+        self.slots.iter().filter(|s| matches!(&*s.borrow(), BSlot::Fut(_))).count()
+    }
+    fn lost(&self) -> bool {
+        // whoever is still pending at quiescence has arrived in the current, incomplete generation
+        // (a barrier of 0 or 1 never makes anybody wait)
+        self.pending() > self.b.__verif_snapshot().words[1] || (self.n <= 1 && self.pending() > 0)
+    }
+    fn wake_tags() -> &'static str {
+        "[C09]"
+    }
+}
+
 fn main() {
     let args: Vec<String> = std::env::args().collect();
     match args.get(1).map(|s| s.as_str()) {
@@ -1101,6 +1228,7 @@ fn main() {
                 "sem" => replay::<SemP>(param, key),
                 "rwlock" => replay::<RwP>(param, key),
                 "once" => replay::<OnceP>(param, key),
+                "barrier" => replay::<BarrierP>(param, key),
                 _ => panic!("unknown primitive"),
             }
         }
@@ -1113,6 +1241,7 @@ fn main() {
                 "sem" => run_all::<SemP>(depth, inner, post),
                 "rwlock" => run_all::<RwP>(depth, inner, post),
                 "once" => run_all::<OnceP>(depth, inner, post),
+                "barrier" => run_all::<BarrierP>(depth, inner, post),
                 _ => panic!("unknown primitive"),
             }
         }
